@@ -25,12 +25,16 @@ def h_store_sites(ctx, cfg):
     ctx.prove("frame.every_contracted_function_is_present", z3.BoolVal(not missing), detail=repr(missing))
     if missing:
         raise rewrite.BindingError("functions under a frame contract are missing: %r" % missing)
+    open_ = []
     for o in obs:
         name = "frame[%s].%s#%d" % (o["fn"], o["what"], o["ordinal"])
         if o.get("undecided"):
-            from pcv.core import Unsupported
-            raise Unsupported("frame pass: unknown provenance at %s line %d (%s)" % (o["fn"], o["line"], o["what"]))
+            open_.append("%s line %d (%s)" % (o["fn"], o["line"], o["what"]))
+            continue
         ctx.prove(name, z3.BoolVal(bool(o["ok"])), detail="line %d target %s offending %s" % (o["line"], o.get("target"), o.get("offending")))
+    if open_:
+        from pcv.core import Unsupported
+        raise Unsupported("frame pass: unknown provenance or no frame contract at %s" % "; ".join(open_[:6]))
 
 
 CACHE_DECORATORS = {"lru_cache", "cache", "cached_property", "singledispatch", "memoize"}
@@ -299,3 +303,31 @@ def h_no_stale(ctx, cfg):
         ctx.prove("to_constant.equal_looking_code_objects_are_each_decoded", z3.BoolVal(c1 == c2 and r1 == ("decoded", "a.py", id(c1)) and r2 == ("decoded", "b.py", id(c2)) and len(calls) == 2), detail=repr((r1, r2)))
     finally:
         code_data.CodeData.from_code = saved
+
+
+@harness("equality.every_field_the_encoder_reads_participates_in_eq_and_hash", props=["C08"], functions=["code_data (data classes)", "code_data._code_data.from_code_data", "code_data._blocks.blocks_to_bytes"],
+         configs="any",
+         notes="'equal CodeData encode to identical code objects' = determinism of to_code (C12 frame) + equality looks at everything to_code reads: every data-class field whose name is "
+               "read as an attribute anywhere in the encoder (from_code_data, blocks_to_bytes, from_arg, the line-table writer, args_to_input) or the JSON writer has compare=True and is "
+               "not excluded from the hash; no data class other than Constant defines its own __eq__/__hash__")
+def h_eq_fields(ctx, cfg):
+    import dataclasses
+    import code_data as cd
+    reads = set()
+    for f in ("_code_data.py", "_blocks.py", "_line_mapping.py", "_args.py", "_json_data.py", "_constants.py", "_normalize.py", "__init__.py"):
+        for n in ast.walk(ast.parse(open(os.path.join(PKG(), f), encoding="utf-8").read())):
+            if isinstance(n, ast.Attribute):
+                reads.add(n.attr)
+    n = 0
+    for name in ("CodeData", "Instruction", "Jump", "Name", "Varname", "Constant", "Freevar", "Cellvar", "NoArg", "Args", "Function", "AdditionalLine"):
+        cls = getattr(cd, name)
+        for f in dataclasses.fields(cls):
+            n += 1
+            if f.name in reads or name == "CodeData":
+                ctx.prove("field_participates_in_eq[%s.%s]" % (name, f.name), z3.BoolVal(bool(f.compare)), detail="compare=%r" % f.compare)
+                ctx.prove("field_participates_in_hash[%s.%s]" % (name, f.name), z3.BoolVal(f.hash is None or bool(f.hash)), detail="hash=%r" % f.hash)
+        own = [m for m in ("__eq__", "__hash__", "__ne__") if m in cls.__dict__ and getattr(cls.__dict__[m], "__qualname__", "").startswith(name + ".") and
+               "__create_fn__" not in getattr(cls.__dict__[m], "__qualname__", "") and getattr(cls.__dict__[m], "__module__", None) == cls.__module__ and
+               getattr(getattr(cls.__dict__[m], "__code__", None), "co_filename", "").endswith("__init__.py")]
+        ctx.prove("generated_eq_and_hash[%s]" % name, z3.BoolVal(not own or name == "Constant"), detail=repr(own))
+    ctx.prove("fields_found", z3.BoolVal(n >= 30))
